@@ -1,0 +1,70 @@
+//go:build verif
+
+package lexer
+
+// Contracts for the deductive verifier in /verif (build tag "verif" only; this
+// file contains no declarations and is not part of any normal build).
+//
+//@ mode int
+//@ implicit [C06]
+//
+// ---- TLexer: the transactional cache -----------------------------------------------------------
+// stack is the cache of results pulled from the wrapped lexer so far (append-only), readp the
+// position of the current token in it, pointers the stack of saved positions.
+//@ pred tinv(tl *TLexer) bool := tl != nil && tl.writep == len(tl.stack) && -1 <= tl.readp && tl.readp <= tl.writep - 1
+//@     && (forall j :: 0 <= j && j < len(tl.pointers) ==> -1 <= tl.pointers[j] && tl.pointers[j] <= tl.writep - 1)
+//@ pred cacheKept(tl *TLexer) bool := forall i :: 0 <= i && i < old(tl.writep) ==> tl.stack[i] == old(tl.stack[i])
+//@ pred pointersKept(tl *TLexer) bool := len(tl.pointers) == old(len(tl.pointers)) && (forall j :: 0 <= j && j < len(tl.pointers) ==> tl.pointers[j] == old(tl.pointers[j]))
+//
+//@ func (*TLexer).Next [C13,C06]
+//@   requires tinv(tl)
+//@   modifies tl.readp, tl.writep, tl.stack, elems(tl.stack), tl.lexer
+//@   ensures[inv]    tinv(tl) && pointersKept(tl) && cacheKept(tl)
+//@   ensures[cached] old(tl.readp) < old(tl.writep) - 1 ==> result && tl.readp == old(tl.readp) + 1 && tl.writep == old(tl.writep) && eqv(tl.lexer, old(tl.lexer))
+//@   ensures[fetch]  old(tl.readp) == old(tl.writep) - 1 && result ==> tl.readp == old(tl.readp) + 1 && tl.writep == old(tl.writep) + 1
+//@       && tl.stack[tl.readp].token == tl.lexer.Token && tl.stack[tl.readp].err == tl.lexer.Err && tl.stack[tl.readp].from == tl.lexer.from && tl.stack[tl.readp].to == tl.lexer.to
+//@   ensures[stay]   !result ==> tl.readp == old(tl.readp) && tl.writep == old(tl.writep)
+//
+//@ func (*TLexer).Token [C13,C06] pure
+//@   requires tinv(tl) && tl.readp >= 0
+//@   ensures dyntype(result) == typeid[token.Type]()
+//@ func (*TLexer).Err [C13,C06] pure
+//@   requires tinv(tl) && tl.readp >= 0
+//@   ensures result == tl.stack[tl.readp].err
+//@ func (*TLexer).From [C13,C06] pure
+//@   requires tinv(tl) && tl.readp >= 0
+//@   ensures result == tl.stack[tl.readp].from
+//@ func (*TLexer).To [C13,C06] pure
+//@   requires tinv(tl) && tl.readp >= 0
+//@   ensures result == tl.stack[tl.readp].to
+//
+//@ func (*TLexer).Snapshot [C13]
+//@   requires tinv(tl)
+//@   modifies tl.pointers, elems(tl.pointers)
+//@   ensures[pushed] len(tl.pointers) == old(len(tl.pointers)) + 1 && tl.pointers[len(tl.pointers)-1] == tl.readp
+//@       && (forall j :: 0 <= j && j < old(len(tl.pointers)) ==> tl.pointers[j] == old(tl.pointers[j]))
+//@   ensures[inv] tinv(tl) && tl.readp == old(tl.readp)
+//
+//@ func (*TLexer).Commit [C13]
+//@   requires tinv(tl) && len(tl.pointers) >= 1
+//@   modifies tl.pointers
+//@   ensures[popped] len(tl.pointers) == old(len(tl.pointers)) - 1 && (forall j :: 0 <= j && j < len(tl.pointers) ==> tl.pointers[j] == old(tl.pointers[j]))
+//@   ensures[inv] tinv(tl) && tl.readp == old(tl.readp)
+//
+//@ func (*TLexer).Rollback [C13]
+//@   requires tinv(tl) && len(tl.pointers) >= 1
+//@   modifies tl.pointers, tl.readp
+//@   ensures[restored] tl.readp == old(tl.pointers[len(tl.pointers)-1])
+//@   ensures[popped] len(tl.pointers) == old(len(tl.pointers)) - 1 && (forall j :: 0 <= j && j < len(tl.pointers) ==> tl.pointers[j] == old(tl.pointers[j]))
+//@   ensures[inv] tinv(tl)
+//
+//@ func NewTLexer [C13]
+//@   ensures result.readp == -1 && result.writep == 0 && len(result.stack) == 0 && len(result.pointers) == 0
+//
+// ---- Lexer -------------------------------------------------------------------------------------
+//@ func (*Lexer).Next [C14,C06] trusted
+//@   requires l != nil
+//@   modifies *l
+//
+//@ canary func (*TLexer).From
+//@   ensures false
